@@ -380,7 +380,87 @@ def cursor_installer(f):
     return out
 
 
-def codec_rule(run, rule, ast):
+def _cursor_rule(run, rule, f, call, cnt, env):
+    """the read cursor over the packed offsets advances, per method, by exactly the number of cells copied from it: the next
+    method's cells start where this one's end (anything else installs a neighbour's offsets from the second method on)"""
+    src = astq.strip(call["c"][1])
+    while src is not None and src.get("k") in ("UnaryOperator",) and src.get("op") in ("+",):
+        src = astq.strip(src["c"][0])
+    if src is None or src.get("k") != "DeclRefExpr" or src["ref"].get("storage") != "local":
+        run.broken.append("decode_dispatch_data: the source of the block copy is not a local cursor (%s)" % astq.text(call["c"][1])[:60])
+        return
+    did = src["ref"]["did"]
+    byid, parent = astq.index_nodes(f)
+    # the compound statement the copy belongs to
+    x = call
+    while x is not None and not (parent.get(x["id"]) is not None and parent[x["id"]].get("k") == "CompoundStmt"):
+        x = parent.get(x["id"])
+    blk = parent.get(x["id"]) if x is not None else None
+    if blk is None:
+        run.broken.append("decode_dispatch_data: block of the slots-and-strides copy not found")
+        return
+    is_cur = lambda e: (astq.strip(e) or {}).get("k") == "DeclRefExpr" and astq.strip(e)["ref"]["did"] == did
+    total, unknown, nested = {}, [], []
+    for st in blk.get("c") or []:
+        for n in astq.walk(st):
+            adv = None
+            if n.get("k") == "UnaryOperator" and n.get("op") in ("++", "--") and is_cur(n["c"][0]):
+                adv = {1: 1 if n["op"] == "++" else -1}
+            elif n.get("k") == "CompoundAssignOperator" and n.get("op") in ("+=", "-=") and is_cur(n["c"][0]):
+                a = astq.affine(n["c"][1], env, symname)
+                adv = None if a is None else (a if n["op"] == "+=" else astq.aff_scale(a, -1))
+                if a is None:
+                    unknown.append(n)
+            elif n.get("k") == "BinaryOperator" and n.get("op") == "=" and is_cur(n["c"][0]):
+                r = astq.strip(n["c"][1])
+                a = None
+                if r is not None and r.get("k") == "CallExpr" and re.match(r"^std::next<", r.get("callee") or "") and len(r["c"]) == 3 and is_cur(r["c"][1]):
+                    a = astq.affine(r["c"][2], env, symname)
+                elif r is not None and r.get("k") == "BinaryOperator" and r.get("op") == "+":
+                    if is_cur(r["c"][0]):
+                        a = astq.affine(r["c"][1], env, symname)
+                    elif is_cur(r["c"][1]):
+                        a = astq.affine(r["c"][0], env, symname)
+                if a is None:
+                    unknown.append(n)
+                adv = a
+            elif n.get("k") == "CallExpr" and re.match(r"^std::advance<", n.get("callee") or "") and len(n["c"]) == 3 and is_cur(n["c"][1]):
+                adv = astq.affine(n["c"][2], env, symname)
+                if adv is None:
+                    unknown.append(n)
+            else:
+                continue
+            if adv is not None:
+                if astq.strip(st) is not n and st is not n:
+                    # an advance below a condition or inside a loop
+                    pk = [q.get("k") for q in _ancestors(parent, n, st)]
+                    if any(k in ("IfStmt", "WhileStmt", "ForStmt", "DoStmt", "CXXForRangeStmt", "ConditionalOperator", "SwitchStmt") for k in pk):
+                        nested.append(n)
+                        continue
+                total = astq.aff_add(total, adv)
+    if unknown or nested:
+        run.broken.append("decode_dispatch_data: the packed-offsets cursor is advanced in a way the rule does not model (%s)" % astq.text((unknown + nested)[0])[:60])
+        return
+    total = {k: v for k, v in total.items() if v}
+    ok = total == {k: v for k, v in (cnt or {}).items() if v}
+    run.instance(rule, "decode_dispatch_data: the packed-offsets cursor advances by the number of cells copied (per method)", (f["file"], call["l"]), ok=ok, detail={"copied": astq.aff_show(cnt or {}), "advance": astq.aff_show(total)})
+    if not ok:
+        run.violation(rule, "decode_dispatch_data|cursor-advance", "per method %s cells are copied from the packed offsets but the cursor advances by %s: every method after a multi-method gets its neighbour's offsets" % (
+            astq.aff_show(cnt or {}), astq.aff_show(total)), (f["file"], call["l"]))
+
+
+def _ancestors(parent, n, stop):
+    out = []
+    x = parent.get(n["id"])
+    while x is not None and x is not stop:
+        out.append(x)
+        x = parent.get(x["id"])
+    if x is stop:
+        out.append(stop)
+    return out
+
+
+def codec_rule(run, rule, ast, encoder=True):
     """decode copies 2*arity-1 cells per method to the start of the array; the encoder emits slots then strides."""
     for f in [f for f in ast.funcs if f.get("body") and "decode_dispatch_data<" in f["name"]]:
         vardefs = {}
@@ -402,11 +482,13 @@ def codec_rule(run, rule, ast):
             run.broken.append("%s: no block copy into the method's slots-and-strides array recognised" % f["name"][:70])
             continue
         ok = len(hits) == 1 and hits[0][0] == {"arity": 2, 1: -1}
+        if len(hits) == 1:
+            _cursor_rule(run, rule, f, hits[0][1], hits[0][0], env)
         run.instance(rule, "%s: copies 2*arity-1 cells to the start of the method's array" % f["name"][:70], (f["file"], f["line"]), ok=ok)
         if not ok:
             run.violation(rule, "decode_dispatch_data|block-copy", "decode_dispatch_data copies %s cells into slots_strides_ptr (expected 2*arity - 1)" % (
                 [astq.aff_show(h[0]) for h in hits]), (f["file"], hits[0][1]["l"] if hits else f["line"]))
-    for f in [f for f in ast.funcs if f.get("body") and "generator::encode_dispatch_data<" in f["name"] and len(f["params"]) == 3]:
+    for f in [f for f in ast.funcs if encoder and f.get("body") and "generator::encode_dispatch_data<" in f["name"] and len(f["params"]) == 3]:
         encoder_layout_rule(run, rule, f)
 
 
